@@ -254,6 +254,121 @@ func init() {
 			key := packageKey{Name: pkg.Name, Subrepo: pkg.SubrepoName}
 			if !graph.packages.Add(key, pkg) { panic("Attempt to re-add existing package: " + key.String()) } }`)
 
+		// --- original targets (round-2 follow-up) ---------------------------------------------------------
+		// TargetSet (target_set.go), AddOriginalTarget, isOriginalTarget and the two sites that consume it are pinned;
+		// the FINAL CONDITION of isOriginalTarget is translated into Gen.is_original_cond (the model's is_original is
+		// written against it, Proof/C36_orig.v proves the original-target theorems about it).
+		fsTS, fts := parseFile("src/core/target_set.go")
+		matchShape("TargetSet.Add", bodyText(fsTS, findFunc(fts, "TargetSet", "Add")), `{
+			ts.mutex.Lock()
+			defer ts.mutex.Unlock()
+			if label.IsAllSubpackages() { panic("TargetSet doesn't support ... labels")
+			} else if label.IsAllTargets() { ts.packages[label.packageKey()] = struct{}{}
+			} else { ts.targets[label] = struct{}{} }
+			ts.everything = append(ts.everything, label) }`)
+		matchShape("TargetSet.Match", bodyText(fsTS, findFunc(fts, "TargetSet", "Match")), `{
+			ts.mutex.RLock()
+			defer ts.mutex.RUnlock()
+			if _, present := ts.targets[label]; present { return true, true }
+			_, present := ts.packages[label.packageKey()]
+			return present, false }`)
+		matchShape("TargetSet.MatchExact", bodyText(fsTS, findFunc(fts, "TargetSet", "MatchExact")), `{
+			ts.mutex.RLock()
+			defer ts.mutex.RUnlock()
+			_, present := ts.targets[label]
+			return present }`)
+		matchShape("TargetSet.AllTargets", bodyText(fsTS, findFunc(fts, "TargetSet", "AllTargets")), `{
+			ts.mutex.RLock()
+			defer ts.mutex.RUnlock()
+			return ts.everything[:] }`)
+		matchShape("BuildLabel.packageKey", bodyText(fsL, findFunc(fl, "BuildLabel", "packageKey")), `{ return packageKey{Name: label.PackageName, Subrepo: label.Subrepo} }`)
+		matchShape("BuildState.AddOriginalTarget", bodyText(fsS, findFunc(fs, "BuildState", "AddOriginalTarget")), `{
+			_, arch := SplitSubrepoArch(label.Subrepo)
+			if arch != "" { state.Graph.AddSubrepo(SubrepoForArch(state, cli.NewArchFromString(arch))) }
+			for _, e := range state.ExcludeTargets { if e.Includes(label) { return } }
+			if addToList { state.progress.originalTargets.Add(label) }
+			state.addPendingParse(label, OriginalTarget, ParseModeNormal) }`)
+		matchShape("BuildState.IsOriginalTarget", bodyText(fsS, findFunc(fs, "BuildState", "IsOriginalTarget")), `{ return state.isOriginalTarget(target, false) }`)
+		matchShape("BuildState.ExpandOriginalLabels", bodyText(fsS, findFunc(fs, "BuildState", "ExpandOriginalLabels")), `{ return state.ExpandLabels(state.progress.originalTargets.AllTargets()) }`)
+		matchShape("BuildState.ExpandAllOriginalLabels", bodyText(fsS, findFunc(fs, "BuildState", "ExpandAllOriginalLabels")), `{ return state.expandLabels(state.progress.originalTargets.AllTargets(), false) }`)
+		matchShape("BuildState.ExpandLabels", bodyText(fsS, findFunc(fs, "BuildState", "ExpandLabels")), `{ return state.expandLabels(labels, state.NeedTests) }`)
+		matchShape("BuildState.QueueTestTarget", bodyText(fsS, findFunc(fs, "BuildState", "QueueTestTarget")), `{
+			state.queueTargetData(target)
+			state.AddPendingTest(target) }`)
+		// the two consumers: which members of a requested :all are queued (ActivateTarget), which built tests are run (plz.Run)
+		mustContain := func(what, text, stmt string) {
+			if !strings.Contains(text, strings.TrimSpace(ws.ReplaceAllString(stmt, " "))) {
+				failShape("%s no longer contains the statement the C36 model was written from: %s", what, strings.TrimSpace(ws.ReplaceAllString(stmt, " ")))
+			}
+		}
+		mustContain("BuildState.ActivateTarget", bodyText(fsS, findFunc(fs, "BuildState", "ActivateTarget")), `if dependent == OriginalTarget {
+			for _, target := range pkg.AllTargets() {
+				if state.ShouldInclude(target) && !target.AddedPostBuild {
+					if !state.NeedTests || target.IsTest() || state.NeedCoverage {
+						if err := state.QueueTarget(target.Label, dependent, dependent.IsAllTargets(), mode); err != nil { return err } } } } }`)
+		fsP, fp := parseFile("src/plz/plz.go")
+		mustContain("plz.Run", bodyText(fsP, findFunc(fp, "", "Run")), `if state.NeedTests && task.Target.IsTest() && state.IsOriginalTarget(task.Target) { state.QueueTestTarget(task.Target) }`)
+
+		// isOriginalTarget: the first two statements pinned, the returned condition translated
+		iot := findFunc(fs, "BuildState", "isOriginalTarget")
+		if len(iot.Body.List) != 3 {
+			failShape("BuildState.isOriginalTarget has %d statements, the C36 model was written from 3", len(iot.Body.List))
+		}
+		stmtText := func(n ast.Node) string {
+			var b bytes.Buffer
+			if err := (&printer.Config{Mode: printer.RawFormat}).Fprint(&b, fsS, n); err != nil {
+				failShape("cannot print a statement of isOriginalTarget: %v", err)
+			}
+			return strings.TrimSpace(ws.ReplaceAllString(b.String(), " "))
+		}
+		if got, want := stmtText(iot.Body.List[0]), `if exact { return state.progress.originalTargets.MatchExact(target.Label) }`; got != want {
+			failShape("isOriginalTarget, statement 1: expected %s, found %s", want, got)
+		}
+		if got, want := stmtText(iot.Body.List[1]), `matched, wasExact := state.progress.originalTargets.Match(target.Label)`; got != want {
+			failShape("isOriginalTarget, statement 2: expected %s, found %s", want, got)
+		}
+		ret, ok := iot.Body.List[2].(*ast.ReturnStmt)
+		if !ok || len(ret.Results) != 1 {
+			failShape("isOriginalTarget, statement 3: expected `return <condition>`, found %s", stmtText(iot.Body.List[2]))
+		}
+		var cond func(e ast.Expr) string
+		cond = func(e ast.Expr) string {
+			switch x := e.(type) {
+			case *ast.ParenExpr:
+				return cond(x.X)
+			case *ast.BinaryExpr:
+				switch x.Op {
+				case token.LAND:
+					return "(andb " + cond(x.X) + " " + cond(x.Y) + ")"
+				case token.LOR:
+					return "(orb " + cond(x.X) + " " + cond(x.Y) + ")"
+				}
+			case *ast.UnaryExpr:
+				if x.Op == token.NOT {
+					return "(negb " + cond(x.X) + ")"
+				}
+			case *ast.Ident:
+				switch x.Name {
+				case "matched":
+					return "matched"
+				case "wasExact":
+					return "was_exact"
+				case "true", "false":
+					return x.Name
+				}
+			case *ast.CallExpr:
+				switch stmtText(x) {
+				case `state.ShouldInclude(target)`:
+					return "state_si" // BuildState.ShouldInclude: exclude build patterns AND label filters
+				case `target.ShouldInclude(state.Include, state.Exclude)`:
+					return "target_si" // BuildTarget.ShouldInclude: the label filters only
+				}
+			}
+			failShape("isOriginalTarget: the returned condition contains %s, which the C36 translator does not know", stmtText(e))
+			return ""
+		}
+		isOriginalCond := cond(ret.Results[0])
+
 		// the two reserved suffixes
 		var buildSuf, testSuf string
 		for _, file := range []string{"src/core/build_target.go", "src/core/build_label.go", "src/core/utils.go", "src/core/build_env.go"} {
@@ -306,6 +421,10 @@ func init() {
 			"Definition name_hidden_exception : string := " + coqString(nameDots) + ".\n" +
 			"Definition reserved_suffixes : list string := " + coqStringList([]string{buildSuf, testSuf}) + ".\n" +
 			"Definition package_key_prefix : string := " + coqString(keyPrefix) + ".\n" +
-			"Definition package_key_infix : string := " + coqString(keyInfix) + ".\n"
+			"Definition package_key_infix : string := " + coqString(keyInfix) + ".\n" +
+			"(* BuildState.isOriginalTarget(target, false): the returned condition, translated.  matched, was_exact = the results of\n" +
+			"   originalTargets.Match(target.Label); state_si = state.ShouldInclude(target) (exclude build patterns and label filters);\n" +
+			"   target_si = target.ShouldInclude(state.Include, state.Exclude) (the label filters only) *)\n" +
+			"Definition is_original_cond (matched was_exact state_si target_si : bool) : bool := " + isOriginalCond + ".\n"
 	}
 }
